@@ -27,8 +27,8 @@ Parent == [mod |-> "mod", F1 |-> "mod", G1 |-> "F1", C1 |-> "mod", init |-> "C1"
 IsClass(s) == s = "C1"
 
 \* ---- binders: [name, scope where the name is bound]
-Binders == {"s1", "f1", "p1", "p2", "l1", "n1", "i1", "g1", "q1", "c1", "a1", "p3", "m1", "p4", "l2", "e1", "f2", "p5", "o1", "k1", "w1", "f3", "p6", "o2", "r1"}
-ScopeOf == [s1 |-> "mod", f1 |-> "mod", c1 |-> "mod", f2 |-> "mod", f3 |-> "mod", p6 |-> "F3", o2 |-> "F2", r1 |-> "F2",
+Binders == {"s1", "f1", "p1", "p2", "l1", "n1", "i1", "g1", "q1", "c1", "a1", "p3", "m1", "p4", "l2", "e1", "f2", "p5", "o1", "k1", "w1", "f3", "p6", "o2", "r1", "m2", "l3"}
+ScopeOf == [s1 |-> "mod", f1 |-> "mod", c1 |-> "mod", f2 |-> "mod", f3 |-> "mod", p6 |-> "F3", o2 |-> "F2", r1 |-> "F2", m2 |-> "C1", l3 |-> "M1",
             p1 |-> "F1", p2 |-> "F1", l1 |-> "F1", n1 |-> "F1", i1 |-> "F1", g1 |-> "F1",
             q1 |-> "G1",
             a1 |-> "C1", m1 |-> "C1",
@@ -38,7 +38,7 @@ ScopeOf == [s1 |-> "mod", f1 |-> "mod", c1 |-> "mod", f2 |-> "mod", f3 |-> "mod"
             p5 |-> "F2", o1 |-> "F2", k1 |-> "F2",
             w1 |-> "lam"]
 \* attribute names live in the object's namespace, not in the scope chain
-IsAttr(b) == b \in {"a1", "m1"}
+IsAttr(b) == b \in {"a1", "m1", "m2"}
 
 \* ---- references: [id, scope of occurrence, intended binder]; attribute references resolve through the object
 Refs == { [id |-> 1, at |-> "F1", to |-> "p1"], [id |-> 2, at |-> "F1", to |-> "s1"], [id |-> 3, at |-> "G1", to |-> "q1"],
@@ -51,7 +51,10 @@ Refs == { [id |-> 1, at |-> "F1", to |-> "p1"], [id |-> 2, at |-> "F1", to |-> "
           [id |-> 21, at |-> "F1", to |-> "n1"], [id |-> 22, at |-> "F1", to |-> "i1"],
           \* a function that returns an instance of the class, and locals declared from calls of functions (not constructors)
           [id |-> 23, at |-> "F3", to |-> "c1"], [id |-> 24, at |-> "F3", to |-> "p6"], [id |-> 25, at |-> "F2", to |-> "f3"],
-          [id |-> 26, at |-> "F2", to |-> "o2"], [id |-> 27, at |-> "F2", to |-> "r1"] }
+          [id |-> 26, at |-> "F2", to |-> "o2"], [id |-> 27, at |-> "F2", to |-> "r1"],
+          \* a bare name in a method body that denotes a module-level function: members of the class (a second method of
+          \* another type among them) are not visible there, whatever they are called
+          [id |-> 28, at |-> "M1", to |-> "f1"], [id |-> 29, at |-> "M1", to |-> "l3"] }
 
 \* ---- LEGB resolution of slot x from scope s under assignment id : binders -> slots
 RECURSIVE Resolve(_, _, _, _)
@@ -71,7 +74,12 @@ Valid(id) ==
 
 Injective == [b \in Binders |-> b]          \* every binder its own slot (slots are named after binders)
 Merge(id, b1, b2) == [id EXCEPT ![b2] = id[b1]]
-Pairs == {<<b1, b2>> \in Binders \X Binders : b1 # b2}
+Order == <<"s1", "f1", "p1", "p2", "l1", "n1", "i1", "g1", "q1", "c1", "a1", "p3", "m1", "p4", "l2", "e1", "f2", "p5", "o1", "k1", "w1", "f3", "p6", "o2", "r1", "m2", "l3">>
+\* (a function, so that TLC evaluates it once)
+Idx == [b \in Binders |-> CHOOSE i \in DOMAIN Order : Order[i] = b]
+\* one merge per unordered pair: the later binder (in Order) takes the slot of the earlier one (merging the other way round
+\* gives the same partition of the binders)
+Pairs == {<<b1, b2>> \in Binders \X Binders : Idx[b1] < Idx[b2]}
 OneMerge == {Merge(Injective, p[1], p[2]) : p \in Pairs}
 ValidOne == {id \in OneMerge : Valid(id)}
 \* two independent merges, built only from valid single merges
@@ -84,23 +92,20 @@ Ren(id) == [b \in Binders |-> <<"x", id[b]>>]
 BindsBySlotOnly == \A id \in Assignments : \A r \in Refs : Resolve(Ren(id), Ren(id)[r.to], r.at, TRUE) = Resolve(id, id[r.to], r.at, TRUE)
 
 \* ---- namings: slot -> string.  Pools are sequences; slot k (in a fixed order of the binders) takes pool[k]
-Order == <<"s1", "f1", "p1", "p2", "l1", "n1", "i1", "g1", "q1", "c1", "a1", "p3", "m1", "p4", "l2", "e1", "f2", "p5", "o1", "k1", "w1", "f3", "p6", "o2", "r1">>
 Pools == [
-  base    |-> <<"zqa", "zqb", "zqc", "zqd", "zqe", "zqf", "zqg", "Zqh", "zqi", "zqj", "zqk", "zql", "zqm", "zqn", "zqo", "zqp", "zqq", "zqr", "zqs", "zqt", "zqu", "zqv", "zqw", "zqx", "zqy">>,
-  prefix  |-> <<"v", "v_", "v__", "vv", "v_v", "vv_", "v_vv", "Vv", "v_a", "v_ab", "v_abc", "va", "vab", "vabc", "va_", "v_b", "vb", "v_bb", "vbb", "v_c", "vc", "vcc", "v_cc", "vc_", "v_d">>,
-  dunder  |-> <<"a__b", "a__", "a__b__c", "b__a", "a_b", "ab__", "a___b", "A__b", "b__", "c__a", "c__", "a__c", "c__b", "b__c", "ab__c", "a__bc", "bc__a", "cb__a", "abc__", "d__a", "a__d", "d__", "a__e", "e__a", "ae__">>,
-  words   |-> <<"var", "closure", "name", "block", "list_comp", "function", "args", "Class", "field", "parameter", "method", "argument", "local", "comp_for", "entry", "param", "value", "lambda_", "elem", "decl_var", "scope", "relay", "func_call", "indexer", "move_assign">>,
-  lengths |-> <<"x", "xxxxxxxxxxxxxxxxxxxxxxxx", "y", "yyyyyyyyyyyyyyyy", "z", "zzzzzzzzzzzz", "w", "Wwwwwwww", "u", "uuuuuuuuuuuuuuuuuuuuuuuuuuuuuuuu", "t", "tttt", "r", "rrrrrrrr", "q", "qqqqqq", "o", "oo", "k", "j", "jjjjjjjjjj", "i", "iiiiiiiiiiiiii", "h", "hhh">>,
-  digits  |-> <<"x1", "x10", "x11", "x2", "x20", "x100", "x01", "X1", "x1_", "x_1", "x1_0", "x12", "x21", "x121", "x112", "x3", "x30", "x31", "x13", "x4", "x40", "x41", "x14", "x5", "x50">>,
-  sufchain |-> <<"a", "ba", "cba", "dcba", "edcba", "fedcba", "gfedcba", "hgfedcba", "ihgfedcba", "jihgfedcba", "kjihgfedcba", "lkjihgfedcba", "mlkjihgfedcba", "nmlkjihgfedcba", "onmlkjihgfedcba", "ponmlkjihgfedcba", "qponmlkjihgfedcba", "rqponmlkjihgfedcba", "srqponmlkjihgfedcba", "tsrqponmlkjihgfedcba", "utsrqponmlkjihgfedcba", "vutsrqponmlkjihgfedcba", "wvutsrqponmlkjihgfedcba", "xwvutsrqponmlkjihgfedcba", "yxwvutsrqponmlkjihgfedcba">>,
-  sufchainrev |-> <<"yxwvutsrqponmlkjihgfedcba", "xwvutsrqponmlkjihgfedcba", "wvutsrqponmlkjihgfedcba", "vutsrqponmlkjihgfedcba", "utsrqponmlkjihgfedcba", "tsrqponmlkjihgfedcba", "srqponmlkjihgfedcba", "rqponmlkjihgfedcba", "qponmlkjihgfedcba", "ponmlkjihgfedcba", "onmlkjihgfedcba", "nmlkjihgfedcba", "mlkjihgfedcba", "lkjihgfedcba", "kjihgfedcba", "jihgfedcba", "ihgfedcba", "hgfedcba", "gfedcba", "fedcba", "edcba", "dcba", "cba", "ba", "a">>,
-  prechain |-> <<"a", "ab", "abc", "abcd", "abcde", "abcdef", "abcdefg", "abcdefgh", "abcdefghi", "abcdefghij", "abcdefghijk", "abcdefghijkl", "abcdefghijklm", "abcdefghijklmn", "abcdefghijklmno", "abcdefghijklmnop", "abcdefghijklmnopq", "abcdefghijklmnopqr", "abcdefghijklmnopqrs", "abcdefghijklmnopqrst", "abcdefghijklmnopqrstu", "abcdefghijklmnopqrstuv", "abcdefghijklmnopqrstuvw", "abcdefghijklmnopqrstuvwx", "abcdefghijklmnopqrstuvwxy">>,
-  prechainrev |-> <<"abcdefghijklmnopqrstuvwxy", "abcdefghijklmnopqrstuvwx", "abcdefghijklmnopqrstuvw", "abcdefghijklmnopqrstuv", "abcdefghijklmnopqrstu", "abcdefghijklmnopqrst", "abcdefghijklmnopqrs", "abcdefghijklmnopqr", "abcdefghijklmnopq", "abcdefghijklmnop", "abcdefghijklmno", "abcdefghijklmn", "abcdefghijklm", "abcdefghijkl", "abcdefghijk", "abcdefghij", "abcdefghi", "abcdefgh", "abcdefg", "abcdef", "abcde", "abcd", "abc", "ab", "a">>,
+  base    |-> <<"zqa", "zqb", "zqc", "zqd", "zqe", "zqf", "zqg", "Zqh", "zqi", "zqj", "zqk", "zql", "zqm", "zqn", "zqo", "zqp", "zqq", "zqr", "zqs", "zqt", "zqu", "zqv", "zqw", "zqx", "zqy", "zra", "zrb">>,
+  prefix  |-> <<"v", "v_", "v__", "vv", "v_v", "vv_", "v_vv", "Vv", "v_a", "v_ab", "v_abc", "va", "vab", "vabc", "va_", "v_b", "vb", "v_bb", "vbb", "v_c", "vc", "vcc", "v_cc", "vc_", "v_d", "v_dd", "vd">>,
+  dunder  |-> <<"a__b", "a__", "a__b__c", "b__a", "a_b", "ab__", "a___b", "A__b", "b__", "c__a", "c__", "a__c", "c__b", "b__c", "ab__c", "a__bc", "bc__a", "cb__a", "abc__", "d__a", "a__d", "d__", "a__e", "e__a", "ae__", "e__", "a__f">>,
+  words   |-> <<"var", "closure", "name", "block", "list_comp", "function", "args", "Class", "field", "parameter", "method", "argument", "local", "comp_for", "entry", "param", "value", "lambda_", "elem", "decl_var", "scope", "relay", "func_call", "indexer", "move_assign", "comp_if", "this">>,
+  lengths |-> <<"x", "xxxxxxxxxxxxxxxxxxxxxxxx", "y", "yyyyyyyyyyyyyyyy", "z", "zzzzzzzzzzzz", "w", "Wwwwwwww", "u", "uuuuuuuuuuuuuuuuuuuuuuuuuuuuuuuu", "t", "tttt", "r", "rrrrrrrr", "q", "qqqqqq", "o", "oo", "k", "j", "jjjjjjjjjj", "i", "iiiiiiiiiiiiii", "h", "hhh", "g", "gggggggggggg">>,
+  digits  |-> <<"x1", "x10", "x11", "x2", "x20", "x100", "x01", "X1", "x1_", "x_1", "x1_0", "x12", "x21", "x121", "x112", "x3", "x30", "x31", "x13", "x4", "x40", "x41", "x14", "x5", "x50", "x51", "x15">>,
+  sufchain |-> <<"a", "ba", "cba", "dcba", "edcba", "fedcba", "gfedcba", "hgfedcba", "ihgfedcba", "jihgfedcba", "kjihgfedcba", "lkjihgfedcba", "mlkjihgfedcba", "nmlkjihgfedcba", "onmlkjihgfedcba", "ponmlkjihgfedcba", "qponmlkjihgfedcba", "rqponmlkjihgfedcba", "srqponmlkjihgfedcba", "tsrqponmlkjihgfedcba", "utsrqponmlkjihgfedcba", "vutsrqponmlkjihgfedcba", "wvutsrqponmlkjihgfedcba", "xwvutsrqponmlkjihgfedcba", "yxwvutsrqponmlkjihgfedcba", "zyxwvutsrqponmlkjihgfedcba", "azyxwvutsrqponmlkjihgfedcba">>,
+  sufchainrev |-> <<"azyxwvutsrqponmlkjihgfedcba", "zyxwvutsrqponmlkjihgfedcba", "yxwvutsrqponmlkjihgfedcba", "xwvutsrqponmlkjihgfedcba", "wvutsrqponmlkjihgfedcba", "vutsrqponmlkjihgfedcba", "utsrqponmlkjihgfedcba", "tsrqponmlkjihgfedcba", "srqponmlkjihgfedcba", "rqponmlkjihgfedcba", "qponmlkjihgfedcba", "ponmlkjihgfedcba", "onmlkjihgfedcba", "nmlkjihgfedcba", "mlkjihgfedcba", "lkjihgfedcba", "kjihgfedcba", "jihgfedcba", "ihgfedcba", "hgfedcba", "gfedcba", "fedcba", "edcba", "dcba", "cba", "ba", "a">>,
+  prechain |-> <<"a", "ab", "abc", "abcd", "abcde", "abcdef", "abcdefg", "abcdefgh", "abcdefghi", "abcdefghij", "abcdefghijk", "abcdefghijkl", "abcdefghijklm", "abcdefghijklmn", "abcdefghijklmno", "abcdefghijklmnop", "abcdefghijklmnopq", "abcdefghijklmnopqr", "abcdefghijklmnopqrs", "abcdefghijklmnopqrst", "abcdefghijklmnopqrstu", "abcdefghijklmnopqrstuv", "abcdefghijklmnopqrstuvw", "abcdefghijklmnopqrstuvwx", "abcdefghijklmnopqrstuvwxy", "abcdefghijklmnopqrstuvwxyz", "abcdefghijklmnopqrstuvwxyza">>,
+  prechainrev |-> <<"abcdefghijklmnopqrstuvwxyza", "abcdefghijklmnopqrstuvwxyz", "abcdefghijklmnopqrstuvwxy", "abcdefghijklmnopqrstuvwx", "abcdefghijklmnopqrstuvw", "abcdefghijklmnopqrstuv", "abcdefghijklmnopqrstu", "abcdefghijklmnopqrst", "abcdefghijklmnopqrs", "abcdefghijklmnopqr", "abcdefghijklmnopq", "abcdefghijklmnop", "abcdefghijklmno", "abcdefghijklmn", "abcdefghijklm", "abcdefghijkl", "abcdefghijk", "abcdefghij", "abcdefghi", "abcdefgh", "abcdefg", "abcdef", "abcde", "abcd", "abc", "ab", "a">>,
   \* names that begin with the names of builtin types and of the words the output language uses for them
-  typewords |-> <<"int_", "intx", "str_", "strs", "bool_", "float_", "list_", "Dict_", "dict_", "tuple_", "void_", "auto_", "std_", "double_", "char_", "long_", "size_t_", "string_", "vector_", "map_", "None_", "self_", "this_", "const_", "type_">>,
-  reverse |-> <<"zqs", "zqr", "zqq", "zqp", "zqo", "zqn", "zqm", "Zql", "zqk", "zqj", "zqi", "zqh", "zqg", "zqf", "zqe", "zqd", "zqc", "zqb", "zqa", "zzb", "zza", "zzc", "zzd", "zze", "zzf">> ]
-\* (a function, so that TLC evaluates it once)
-Idx == [b \in Binders |-> CHOOSE i \in DOMAIN Order : Order[i] = b]
+  typewords |-> <<"int_", "intx", "str_", "strs", "bool_", "float_", "list_", "Dict_", "dict_", "tuple_", "void_", "auto_", "std_", "double_", "char_", "long_", "size_t_", "string_", "vector_", "map_", "None_", "self_", "this_", "const_", "type_", "float_x", "tuple_x">>,
+  reverse |-> <<"zqs", "zqr", "zqq", "zqp", "zqo", "zqn", "zqm", "Zql", "zqk", "zqj", "zqi", "zqh", "zqg", "zqf", "zqe", "zqd", "zqc", "zqb", "zqa", "zzb", "zza", "zzc", "zzd", "zze", "zzf", "zzg", "zzh">> ]
 IndexOf(b) == Idx[b]
 NameOf(id, pool, b) == Pools[pool][IndexOf(id[b])]          \* the name of binder b = pool entry of its slot
 
@@ -127,7 +132,10 @@ Tokens == <<
   T("\t\tself."), B("a1"), T(" = "), B("p3"), T("\n\n"),
   T("\tdef "), B("m1"), T("(self, "), B("p4"), T(": int) -> int:\n"),
   T("\t\t"), B("l2"), T(" = ["), B("e1"), T(" * "), B("p4"), T(" for "), B("e1"), T(" in range("), B("p4"), T(")]\n"),
-  T("\t\treturn self."), B("a1"), T(" + "), B("l2"), T("[0]\n\n"),
+  T("\t\t"), B("l3"), T(" = "), B("f1"), T("("), B("p4"), T(", "), B("p4"), T(")\n"),
+  T("\t\treturn self."), B("a1"), T(" + "), B("l2"), T("[0] + "), B("l3"), T("\n\n"),
+  T("\tdef "), B("m2"), T("(self) -> str:\n"),
+  T("\t\treturn 'z'\n\n"),
   T("def "), B("f3"), T("("), B("p6"), T(": int) -> "), B("c1"), T(":\n"),
   T("\treturn "), B("c1"), T("("), B("p6"), T(")\n\n"),
   T("def "), B("f2"), T("("), B("p5"), T(": int) -> int:\n"),
@@ -151,9 +159,9 @@ Case(id, pool) == [pattern |-> [b \in Binders |-> id[b]], merged |-> MergedPair(
 \* the text of a case is Text(id, pool); to keep the evaluation short TLC prints the token list once and the names per
 \* case (the harness substitutes), and the full text only for the injective assignment (the harness compares its own
 \* substitution with it)
-Slim(id, pool) == [pattern |-> [b \in Binders |-> id[b]], merged |-> MergedPair(id), pool |-> pool,
-                   names |-> [b \in Binders |-> NameOf(id, pool, b)]]
+Slim(id, pool) == [pattern |-> [b \in Binders |-> id[b]], pool |-> pool, names |-> [b \in Binders |-> NameOf(id, pool, b)]]
 Emit == /\ PrintT("TOKENS " \o ToJson(Tokens))
+        /\ PrintT("ORDER " \o ToJson(Order))
         /\ \A pool \in DOMAIN Pools : PrintT("FULL " \o ToJson(Case(Injective, pool)))
         /\ \A id \in Assignments : \A pool \in DOMAIN Pools : PrintT("CASE " \o ToJson(Slim(id, pool)))
 =============================================================================
